@@ -200,12 +200,10 @@ impl ReceiveChannelUnreliable {
         let mut lost_messages: Vec<u64> = Vec::new();
         for (&message_id, last_received) in self.slices_last_received.iter() {
             const DISCARD_AFTER: Duration = Duration::from_secs(3);
+            // The map is ordered by message id, not by time: slices of a newer message
+            // can stall while an older message is still making progress.
             if current_time - *last_received >= DISCARD_AFTER {
                 lost_messages.push(message_id);
-            } else {
-                // If the current message is not discard, the next ones will not be discarded
-                // since all the next message were sent after this one.
-                break;
             }
         }
 
